@@ -38,7 +38,7 @@ fn main() {
             if scen == "c05multi" {
                 // every codec's tables in ONE process, starting with `codec` and continuing in rotated
                 // order (twice): state shared between codecs (statics, lazily built tables) would show
-                let all = &cx::CODECS[..7]; // the seven built-in codecs
+                let all = &cx::CODECS[..]; // the built-in codecs and the two derived in the harness
                 let first = all.iter().position(|c| *c == codec).expect("codec");
                 let mut f = std::io::BufWriter::new(std::fs::File::create(&args[6]).unwrap());
                 let mut n = 0;
